@@ -58,7 +58,8 @@ let hex_of_n (x : n) : string =
       | _ -> failwith "hex_of_n" in
     go bs; Buffer.contents buf
 
-let rec pos_small p depth = if depth > 60 then false else match p with XH -> true | XO q | XI q -> pos_small q (depth+1)
+(* at most 60 bits: printed in decimal, exactly as the Go harness and the python generators do *)
+let rec pos_small p depth = if depth >= 60 then false else match p with XH -> true | XO q | XI q -> pos_small q (depth+1)
 let tok_of_n (x : n) : string = match x with
   | N0 -> "0"
   | Npos p -> if pos_small p 0 then string_of_int (int_of_pos p) else "x" ^ hex_of_n x
@@ -92,3 +93,63 @@ let tn tk = n_of_tok (next tk)
 let tbytes tk = bytes_of_hex (next tk)
 let tnlist tk = let k = tint tk in List.init k (fun _ -> tn tk)
 let str_nlist (l : n list) = String.concat " " (string_of_int (List.length l) :: List.map tok_of_n l)
+
+(* ---- Z ---- *)
+let z_of_int (x : int) : z =
+  if x = 0 then Z0 else if x > 0 then (match n_of_int x with Npos p -> Zpos p | N0 -> Z0)
+  else (match n_of_int (-x) with Npos p -> Zneg p | N0 -> Z0)
+let int_of_z (x : z) : int = match x with Z0 -> 0 | Zpos p -> int_of_pos p | Zneg p -> - (int_of_pos p)
+let tok_of_z (x : z) : string = match x with
+  | Z0 -> "0" | Zpos p -> tok_of_n (Npos p) | Zneg p -> "-" ^ tok_of_n (Npos p)
+
+(* ---- shapes and values ---- *)
+let prim_of_string s = match s with
+  | "int32" -> PInt32 | "int64" -> PInt64 | "uint32" -> PUint32 | "uint64" -> PUint64
+  | "float32" -> PFloat32 | "float64" -> PFloat64 | "bool" -> PBool | "string" -> PString
+  | _ -> failwith ("bad prim " ^ s)
+let rept_of_string s = match s with "req" -> Req | "opt" -> Opt | "rep" -> Rep | _ -> failwith ("bad rep " ^ s)
+
+let rec parse_ty tk : ty =
+  match next tk with
+  | "l" -> TLeaf (prim_of_string (next tk))
+  | "g" -> let n = tint tk in
+    TGroup (List.init n (fun _ -> let name = tbytes tk in let rp = rept_of_string (next tk) in let t = parse_ty tk in ((name, rp), t)))
+  | s -> failwith ("bad ty token " ^ s)
+
+let fields_of_ty t = match t with TGroup fs -> fs | TLeaf _ -> failwith "shape must be a group"
+
+let rec parse_value tk : value =
+  let t = next tk in
+  match t.[0] with
+  | 'N' -> VNull
+  | 'I' -> VNum (n_of_tok (String.sub t 1 (String.length t - 1)))
+  | 'S' -> VStr (bytes_of_hex (String.sub t 1 (String.length t - 1)))
+  | 'L' -> let n = tint tk in VList (List.init n (fun _ -> parse_value tk))
+  | 'G' -> let n = tint tk in VGroup (List.init n (fun _ -> parse_value tk))
+  | _ -> failwith ("bad value token " ^ t)
+
+let rec print_value (b : Buffer.t) (v : value) : unit =
+  match v with
+  | VNull -> Buffer.add_string b " N"
+  | VNum x -> Buffer.add_string b (" I" ^ tok_of_n x)
+  | VStr s -> Buffer.add_string b (" S" ^ hex_of_bytes s)
+  | VList vs -> Buffer.add_string b (" L " ^ string_of_int (List.length vs)); List.iter (print_value b) vs
+  | VGroup vs -> Buffer.add_string b (" G " ^ string_of_int (List.length vs)); List.iter (print_value b) vs
+
+(* ---- the codec helper over a pipe ---- *)
+let codec_chan : (in_channel * out_channel) option ref = ref None
+let codec_path = ref "codec"
+let codec_call (op : string) (codec : int) (bs : n list) : string =
+  let (ic, oc) = match !codec_chan with
+    | Some c -> c
+    | None -> let c = Unix.open_process !codec_path in codec_chan := Some c; c in
+  output_string oc (op ^ " " ^ string_of_int codec ^ " " ^ hex_of_bytes bs ^ "\n"); flush oc;
+  input_line ic
+let compress (codec : z) (bs : n list) : n list =
+  let c = int_of_z codec in
+  if c = 0 then bs else bytes_of_hex (codec_call "c" c bs)
+let decompress (codec : z) (bs : n list) : n list option =
+  let c = int_of_z codec in
+  if c = 0 then Some bs
+  else if c = 1 || c = 2 then (let r = codec_call "d" c bs in if r = "ERR" then None else Some (bytes_of_hex r))
+  else None
